@@ -109,9 +109,10 @@ def gen_typed(rng, tier):
 
 
 def gen_wide(rng, tier):
-    for _ in range(2 if tier == 'quick' else 10):
-        # more than 64 / 128 states (index arithmetic, masks and tables that depend on the state count)
-        k = rng.choice([66, 70, 131])
+    for _w in range(2 if tier == 'quick' else 10):
+        # more than 64 / 128 / 256 states (index arithmetic, masks, tables and INDEX TYPES that depend on the state count);
+        # every second case lies beyond 128 states
+        k = rng.choice([66, 70, 127, 128]) if _w % 2 == 0 else rng.choice([129, 131, 160, 200, 255, 256, 257])
         base = rng.choice([0, 1, -40])
         labs = [base + 2 * i for i in range(k)] if rng.random() < 0.5 else list(range(base, base + k))
         t, cur = [], 0
@@ -285,6 +286,24 @@ def judge(case, ibc, answers):
                 c07.check_cummat(cm, r['perm'], m[1][0], states, P)
             else:
                 P('impl-vs-spec', 'state list %s but the model answers %s' % (states, C.short(m, 80)))
+            if m[0] == 'ok' and isinstance(r['paths'], list):
+                # the pathways against the EXACT model (not against the library's own chain): every key leads from the
+                # start set to the final set over states of the model and uses only transitions with T_ij > 0
+                Tm, ms = m[1][0], m[1][1]
+                for key, _vs in r['paths']:
+                    bad = None
+                    if any(x not in ms for x in key):
+                        bad = 'holds a label that is not a state of the model'
+                    elif key[0] not in case['S'] or key[-1] not in case['F']:
+                        bad = 'does not lead from the start set %s to the final set %s' % (case['S'], case['F'])
+                    else:
+                        for a, b in zip(key, key[1:]):
+                            if Tm[ms.index(a)][ms.index(b)] == 0:
+                                bad = 'uses the transition %d>%d although T = 0 in the exact model' % (a, b)
+                                break
+                    if bad:
+                        P('impl-property', 'msm.estimate_paths: pathway %s %s' % (C.short(key, 80), bad))
+                        break
         us = [Fraction(float.fromhex(u)) for u in r['us']]
         S = sorted({states.index(s) for s in case['S']})
         F = sorted({states.index(s) for s in case['F']})
